@@ -661,6 +661,7 @@ def check(ctx, R):
         "with the same other operand; contains looks the id's clock up in the ranges of the id's client"), ctx)
     R.run("C16.k", rule_k, ctx)
     R.run("C16.q", rule_q, ctx)
+    R.run("C16.r", rule_r, ctx)
     R.run("C16.a", rule_a, ctx)
     R.run("C16.b", rule_b, ctx)
     R.run("C16.c", rule_c, ctx)
@@ -701,3 +702,38 @@ def rule_q(R, ctx, rid="C16.q"):
         R.ob(rid, fn, "cache-write:" + m.group(1), ok, "only after the lookup answered None" if ok else
              "HashSet::%s on the cache is not under `get(..) is None`: a cached handle can be displaced" % m.group(1), c.loc())
     R.floor(rid, "writes of the cache in ensure_attrs", n, 1)
+
+
+def rule_r(R, ctx, rid="C16.r"):
+    """The serde form of an IdSet is read with the lib0 version it is written with."""
+    Y = ctx.yrs
+    R.rule(rid, "R-SIB (pre-emptive, after round 12) the serde form of IdSet: Serialize hands the bytes of Encode::encode_vN(self) to "
+                "serialize_bytes, and every visitor method that rebuilds the set (visit_bytes over its own argument, visit_seq over the "
+                "bytes it collected) decodes with Decode::decode_vN of the same N — these functions carry no version suffix, so the "
+                "version-purity scan does not see them")
+    ser = Y.fn("<yrs::id_set::IdSet as yrs::block::_::_serde::Serialize>::serialize")
+    vs = FnView(ser)
+    enc = [c for c in ser.calls() if re.search(r"Encode::encode_v[12]$", c.name)]
+    sb = [c for c in ser.calls() if c.name.endswith("Serializer::serialize_bytes")]
+    R.floor(rid, "encode calls in IdSet::serialize", len(enc), 1)
+    if len(enc) != 1 or len(sb) != 1:
+        R.ob(rid, ser, "writer", False, "%d encode calls, %d serialize_bytes calls (expected one each)" % (len(enc), len(sb)))
+        return
+    ver = enc[0].name[-1]
+    payload = sshow(simp_deep(vs.arg(sb[0], 1, 8)), 6)
+    R.ob(rid, ser, "writer", payload == "Encode::encode_v%s(self)" % ver, "writes %s" % payload, sb[0].loc())
+    n = 0
+    for fn in Y.find(r"id_set::IdSet as .*Deserialize>::deserialize::IdSetVisitor as .*Visitor>::visit_"):
+        decs = [c for c in fn.calls() if re.search(r"Decode::decode_v[12]$", c.name)]
+        if not decs:
+            continue
+        v = FnView(fn)
+        for c, site in ordinal_sites(decs):
+            n += 1
+            ok = c.name.endswith("decode_v" + ver)
+            arg = sshow(simp_deep(v.arg(c, 0, 8)), 6)
+            if fn.path.endswith("visit_bytes") and arg != "v":
+                ok = False
+            R.ob(rid, fn, site, ok, "reads v%s from %s" % (c.name[-1], arg) if ok else
+                 "the writer emits v%s, this visitor decodes %s with %s" % (ver, arg, c.name.rsplit("::", 1)[-1]), c.loc())
+    R.floor(rid, "decode calls in the IdSet visitors", n, 2)
